@@ -1,5 +1,312 @@
-/- C08: statements in progress; this placeholder keeps the module buildable. -/
-import GoSnaps.Model
+/-
+C08 — skip protection is exact.
+
+`testSkipped` (snaps/skip.go:69-81): an entry `[<test> - <k>]` is protected by `snaps.Skip*`
+iff the part of its id before the FIRST `" - "` is a skipped test's name or starts with
+`<skipped name>/` — the test itself and its descendants, nothing else (a sibling sharing only a
+name prefix is not protected).  Protected entries are kept by `Clean` with their bodies and are
+never reported obsolete.
+
+Byte legend: 32 = ' ', 45 = '-', 47 = '/', "TestA" = [84,101,115,116,65], " - " = [32,45,32].
+-/
+import GoSnaps.Clean
+import GoSnaps.Lemmas.Clean
+import GoSnaps.Props.C03
+import GoSnaps.Props.C10
 namespace GoSnaps.C08
-theorem handleError_counts (w : World) (msg : Text) : (handleError w msg).1.events.erred = w.events.erred + 1 := rfl
+
+open GoSnaps
+
+/-! ## 1. the rule, exactly -/
+
+/-- the protection rule of `testSkipped`, as a proposition -/
+def Protected (skipped : List Text) (testID : Text) : Prop :=
+  ∃ name ∈ skipped, beforeSep testID Generated.skipSep = name ∨
+    hasPrefix (beforeSep testID Generated.skipSep) (name ++ [slash]) = true
+
+theorem skipListed_iff (skipped : List Text) (testID : Text) :
+    skipListed skipped testID = true ↔ Protected skipped testID := by
+  simp [skipListed, Protected, List.any_eq_true]
+
+/-- **skip_exact** (no `-run` filter): the entry is protected iff its test name is a skipped
+name or a descendant (`name/…`) of one -/
+theorem skip_exact (o : Oracles) (skipped : List Text) (testID : Text) :
+    testSkipped o skipped testID [] = some true ↔ Protected skipped testID := by
+  rw [testSkipped_noRun, ← skipListed_iff]; simp
+
+/-- … and otherwise the answer is a definite "not protected" — never an oracle miss -/
+theorem skip_exact_false (o : Oracles) (skipped : List Text) (testID : Text) :
+    testSkipped o skipped testID [] = some false ↔ ¬ Protected skipped testID := by
+  rw [testSkipped_noRun, ← skipListed_iff]; simp
+
+/-- with a `-run` filter the skip list still protects (it is consulted first), and beyond it
+the verdict is the negated regexp match -/
+theorem skip_protects_any_run (o : Oracles) (skipped : List Text) (testID runOnly : Text)
+    (h : Protected skipped testID) : testSkipped o skipped testID runOnly = some true := by
+  have := (skipListed_iff skipped testID).mpr h
+  unfold skipListed at this
+  simp only [testSkipped, this, ↓reduceIte]
+
+theorem not_protected_run (o : Oracles) (skipped : List Text) (testID runOnly : Text)
+    (h : ¬ Protected skipped testID) :
+    testSkipped o skipped testID runOnly = (o.reMatch runOnly testID).map (!·) := by
+  have : skipListed skipped testID = false := by
+    cases hq : skipListed skipped testID with
+    | false => rfl
+    | true => exact absurd ((skipListed_iff _ _).mp hq) h
+  unfold skipListed at this
+  simp only [testSkipped, this, Bool.false_eq_true, ↓reduceIte]
+
+/-- skipped = ["TestA"]: `TestA - 1` (itself) and `TestA/x - 1` (descendant) are protected;
+`TestAB - 1` (sibling sharing the prefix), `TestB - 1`, `Test - 1` (a proper prefix) and
+`xTestA - 1` are not -/
+example :
+    let sk : List Text := [[84, 101, 115, 116, 65]]
+    testSkipped {} sk [84, 101, 115, 116, 65, 32, 45, 32, 49] [] = some true ∧
+    testSkipped {} sk [84, 101, 115, 116, 65, 47, 120, 32, 45, 32, 49] [] = some true ∧
+    testSkipped {} sk [84, 101, 115, 116, 65, 47, 120, 47, 121, 32, 45, 32, 50] [] = some true ∧
+    testSkipped {} sk [84, 101, 115, 116, 65, 66, 32, 45, 32, 49] [] = some false ∧
+    testSkipped {} sk [84, 101, 115, 116, 66, 32, 45, 32, 49] [] = some false ∧
+    testSkipped {} sk [84, 101, 115, 116, 32, 45, 32, 49] [] = some false ∧
+    testSkipped {} sk [120, 84, 101, 115, 116, 65, 32, 45, 32, 49] [] = some false := by
+  decide
+
+/-- the sibling, in general: a test whose name extends a skipped name by bytes that do not
+start with "/" is protected by that name only if … it is not: with a single skipped name
+`name`, `name ++ c :: rest` (c ≠ '/') is not protected -/
+theorem sibling_not_protected (o : Oracles) (name rest suffix : Text) (c : Byte) (hc : c ≠ slash)
+    (hb : beforeSep (name ++ c :: rest ++ suffix) Generated.skipSep = name ++ c :: rest) :
+    testSkipped o [name] (name ++ c :: rest ++ suffix) [] = some false := by
+  rw [skip_exact_false]
+  rintro ⟨n, hn, h⟩
+  simp only [List.mem_singleton] at hn
+  subst hn
+  rw [hb] at h
+  rcases h with h | h
+  · have := congrArg List.length h
+    simp at this
+  · simp only [hasPrefix, List.isPrefixOf_iff_prefix] at h
+    obtain ⟨t, ht⟩ := h
+    simp only [List.append_assoc, List.append_cancel_left_eq, List.cons_append, List.nil_append,
+      List.cons.injEq] at ht
+    exact hc ht.1.symm
+
+/-- the descendant and the test itself, in general -/
+theorem self_and_descendant_protected (o : Oracles) (skipped : List Text) (name sub suffix runOnly : Text)
+    (hmem : name ∈ skipped) :
+    (beforeSep (name ++ suffix) Generated.skipSep = name →
+      testSkipped o skipped (name ++ suffix) runOnly = some true) ∧
+    (beforeSep (name ++ slash :: sub ++ suffix) Generated.skipSep = name ++ slash :: sub →
+      testSkipped o skipped (name ++ slash :: sub ++ suffix) runOnly = some true) := by
+  constructor
+  · intro hb
+    exact skip_protects_any_run o skipped _ runOnly ⟨name, hmem, .inl hb⟩
+  · intro hb
+    refine skip_protects_any_run o skipped _ runOnly ⟨name, hmem, .inr ?_⟩
+    rw [hb]
+    simp only [hasPrefix, List.isPrefixOf_iff_prefix]
+    exact ⟨sub, by simp⟩
+
+/-! ## 2. which part of the id is the test name -/
+
+theorem skipSep_eq : Generated.skipSep = [32, 45, 32] := rfl
+
+/-- first occurrence of `" - "` in `name ++ " - " ++ rest` when `name ++ " -"` contains none -/
+theorem indexOf_go_sep (name rest : Text) (n : Nat)
+    (h : indexOf.go [32, 45, 32] (name ++ [32, 45]) n = none) :
+    indexOf.go [32, 45, 32] (name ++ 32 :: 45 :: 32 :: rest) n = some (n + name.length) := by
+  induction name generalizing n with
+  | nil => simp [indexOf.go, List.isPrefixOf]
+  | cons c cs ih =>
+    simp only [List.cons_append, indexOf.go] at h ⊢
+    split at h
+    · cases h
+    · rename_i hp
+      have hp' : List.isPrefixOf [32, 45, 32] (c :: (cs ++ 32 :: 45 :: 32 :: rest)) = false := by
+        cases cs with
+        | nil => simp [List.isPrefixOf]
+        | cons d ds =>
+          cases ds with
+          | nil => simpa [List.isPrefixOf] using hp
+          | cons e es => simp [List.isPrefixOf] at hp ⊢; exact hp
+      simp only [hp', Bool.false_eq_true, ↓reduceIte]
+      rw [ih (n + 1) h]
+      simp only [List.length_cons]
+      congr 1; omega
+
+/-- **beforeSep_testID** (corrected hypothesis, see the counterexample below): the test-name part
+of `name ++ " - " ++ rest` is `name` provided `name ++ " -"` contains no `" - "`.  -/
+theorem beforeSep_testID_gen (name rest : Text)
+    (h : containsSub (name ++ [32, 45]) [32, 45, 32] = false) :
+    beforeSep (name ++ [32, 45, 32] ++ rest) Generated.skipSep = name := by
+  have hn : indexOf.go [32, 45, 32] (name ++ [32, 45]) 0 = none := by
+    simpa [containsSub, indexOf] using h
+  have := indexOf_go_sep name rest 0 hn
+  simp only [beforeSep, skipSep_eq, indexOf, List.append_assoc, List.cons_append, List.nil_append, this]
+  simp
+
+/-- what Go's `testing` guarantees: test names contain no space (`t.Run` rewrites spaces to
+`_`), and then the condition holds -/
+theorem beforeSep_testID (name : Text) (k : Nat) (h : (32 : Byte) ∉ name) :
+    beforeSep (name ++ [32, 45, 32] ++ natToText k) Generated.skipSep = name := by
+  apply beforeSep_testID_gen
+  have : ∀ (n : Nat), indexOf.go [32, 45, 32] (name ++ [32, 45]) n = none := by
+    induction name with
+    | nil => intro n; simp [indexOf.go, List.isPrefixOf]
+    | cons c cs ih =>
+      intro n
+      have hc : c ≠ 32 := by intro e; apply h; simp [e]
+      have hcs : (32 : Byte) ∉ cs := by intro e; apply h; simp [e]
+      have hc' : ((32 : Byte) == c) = false := by simpa using fun e => hc e.symm
+      simp only [List.cons_append, indexOf.go, List.isPrefixOf, hc', Bool.false_and,
+        Bool.false_eq_true, ↓reduceIte]
+      exact ih hcs (n + 1)
+  simp [containsSub, indexOf, this 0]
+
+/-- the id of a stored entry: `tidOf` of the header `[name - k]` is `name ++ " - " ++ k`, whose
+test-name part is `name` -/
+theorem beforeSep_tid (name : Text) (k : Nat) (h : (32 : Byte) ∉ name) :
+    beforeSep (tidOf ⟨C03.testID name k, []⟩) Generated.skipSep = name := by
+  have : tidOf ⟨C03.testID name k, []⟩ = name ++ [32, 45, 32] ++ natToText k := by
+    simp only [tidOf, C03.testID, List.cons_append, List.drop_succ_cons, List.drop_zero, List.length_cons,
+      List.length_append, List.length_nil]
+    rw [show name ++ [32, 45, 32] ++ natToText k ++ [93] = (name ++ [32, 45, 32] ++ natToText k) ++ [93] from rfl]
+    rw [List.take_append_of_le_length (by simp; omega)]
+    apply List.take_of_length_le
+    simp; omega
+  rw [this]; exact beforeSep_testID name k h
+
+/-- **the statement "name does not contain ` - `" is not enough**: the name `x -` contains no
+`" - "`, yet the id `x - - 1` splits at the FIRST separator and yields `x`; and a name that does
+contain the separator, `a - b`, yields `a` -/
+example :
+    containsSub [120, 32, 45] [32, 45, 32] = false ∧
+    beforeSep ([120, 32, 45] ++ [32, 45, 32] ++ natToText 1) Generated.skipSep = [120] ∧
+    beforeSep ([97, 32, 45, 32, 98] ++ [32, 45, 32] ++ natToText 1) Generated.skipSep = [97] := by
+  decide
+
+/-- consequence for exactness: with a name containing `" - "`, skipping test `a` protects the
+entries of the unrelated test `a - b` (finding; unreachable through Go's `testing`, which
+rewrites spaces in names) -/
+example : testSkipped {} [[97]] ([97, 32, 45, 32, 98] ++ [32, 45, 32] ++ natToText 1) [] = some true := by
+  decide
+
+example : beforeSep ([84, 101, 115, 116, 65, 47, 120] ++ [32, 45, 32] ++ natToText 12) Generated.skipSep =
+    [84, 101, 115, 116, 65, 47, 120] := beforeSep_testID _ 12 (by decide)
+
+/-! ## 3. `snaps.Skip(t)` protects t's own entries and those of its sub-tests -/
+
+theorem trackSkip_mem (w : World) (name : Text) : name ∈ (trackSkip w name).skipped := by
+  simp [trackSkip]
+
+/-- after `snaps.Skip(t)` (t.Name() = `name`, no space), every entry `[name - k]` and every
+entry `[name/sub - k]` of a sub-test is protected, whatever `-run` says -/
+theorem skip_protects_own (o : Oracles) (w : World) (name sub runOnly : Text) (k : Nat)
+    (h : (32 : Byte) ∉ name) (hs : (32 : Byte) ∉ sub) :
+    testSkipped o (trackSkip w name).skipped (name ++ [32, 45, 32] ++ natToText k) runOnly = some true ∧
+    testSkipped o (trackSkip w name).skipped ((name ++ slash :: sub) ++ [32, 45, 32] ++ natToText k) runOnly =
+      some true := by
+  constructor
+  · exact skip_protects_any_run o _ _ runOnly ⟨name, trackSkip_mem w name, .inl (beforeSep_testID name k h)⟩
+  · have hns : (32 : Byte) ∉ name ++ slash :: sub := by
+      simp only [List.mem_append, List.mem_cons, not_or]
+      exact ⟨h, by decide, hs⟩
+    refine skip_protects_any_run o _ _ runOnly ⟨name, trackSkip_mem w name, .inr ?_⟩
+    rw [beforeSep_testID _ k hns]
+    simp only [hasPrefix, List.isPrefixOf_iff_prefix]
+    exact ⟨sub, by simp⟩
+
+/-! ## 4. a protected entry is collected, never reported -/
+
+/-- skip-protected ⇒ kept by the scan (`keptId`), for any `-run` filter -/
+theorem protected_kept (o : Oracles) (registered skipped : List Text) (runOnly tid : Text)
+    (h : Protected skipped tid) : keptId o registered skipped runOnly tid = true := by
+  simp [keptId, skip_protects_any_run o skipped tid runOnly h]
+
+/-- **skipped_entry_kept**: in the scan of a well-formed file, an entry whose id is
+skip-protected is not reported obsolete and is collected with its body, in both modes
+(`update` = delete allowed or not) -/
+theorem skipped_entry_kept (o : Oracles) (registered skipped : List Text) (runOnly : Text)
+    (update : Bool) (es : List Entry) (hf : CleanFile es)
+    (hcls : ∀ e ∈ es, Classified o registered skipped runOnly (tidOf e))
+    (e : Entry) (he : e ∈ es) (hp : Protected skipped (tidOf e)) :
+    let st := exScan o registered skipped runOnly update (scan (render es)) .outer {}
+    tidOf e ∉ st.obsolete ∧ testsGet st.tests (tidOf e) = some (e.body ++ [nl]) ∧
+    tidOf e ∈ st.testIDs := by
+  have hk := protected_kept o registered skipped runOnly (tidOf e) hp
+  rw [C10.exScan_render o registered skipped runOnly update es hf hcls]
+  refine ⟨?_, ?_, ?_⟩
+  · simp only [List.mem_map, List.mem_filter, not_exists, not_and, and_imp]
+    intro x hx hnk hxe
+    rw [hxe, hk] at hnk; cases hnk
+  · show testsGet ((es.filter _).map entryPair) (tidOf e) = _
+    rw [testsGet_map_entryPair, find?_filter_tid es _ e hf.distinct he]
+    simp [hk]
+  · exact List.mem_map_of_mem he
+
+/-- without `-run` no classification hypothesis is needed -/
+theorem skipped_entry_kept_noRun (o : Oracles) (registered skipped : List Text)
+    (update : Bool) (es : List Entry) (hf : CleanFile es)
+    (e : Entry) (he : e ∈ es) (hp : Protected skipped (tidOf e)) :
+    let st := exScan o registered skipped [] update (scan (render es)) .outer {}
+    tidOf e ∉ st.obsolete ∧ testsGet st.tests (tidOf e) = some (e.body ++ [nl]) ∧
+    tidOf e ∈ st.testIDs :=
+  skipped_entry_kept o registered skipped [] update es hf
+    (fun x _ => classified_noRun o registered skipped (tidOf x)) e he hp
+
+/-- … and exactly: an entry that is neither registered nor protected IS reported (no `-run`) -/
+theorem unprotected_reported (o : Oracles) (registered skipped : List Text)
+    (update : Bool) (es : List Entry) (hf : CleanFile es)
+    (e : Entry) (he : e ∈ es) (hr : tidOf e ∉ registered) (hp : ¬ Protected skipped (tidOf e)) :
+    tidOf e ∈ (exScan o registered skipped [] update (scan (render es)) .outer {}).obsolete := by
+  rw [C10.exScan_render o registered skipped [] update es hf
+    (fun x _ => classified_noRun o registered skipped (tidOf x))]
+  have hk : keptId o registered skipped [] (tidOf e) = false := by
+    rw [keptId_noRun]
+    have : skipListed skipped (tidOf e) = false := by
+      cases hq : skipListed skipped (tidOf e) with
+      | false => rfl
+      | true => exact absurd ((skipListed_iff _ _).mp hq) hp
+    simp [this, hr]
+  exact List.mem_map_of_mem (List.mem_filter.mpr ⟨he, by simp [hk]⟩)
+
+/-- **a protected entry survives the whole file step of `Clean`** (any mode, any sort option):
+not reported, and still in the file with the same header and body afterwards -/
+theorem skipped_entry_survives (o : Oracles) (fs : FS) (cleanup : List (RegKey × Nat))
+    (skipped : List Text) (p runOnly : Text) (count : Nat) (update sort : Bool)
+    (registered : List Text)
+    (es : List Entry) (hf : CleanFile es) (hread : fsRead fs p = some (render es))
+    (hreg : registeredFor cleanup p count = some registered)
+    (hcls : ∀ e ∈ es, Classified o registered skipped runOnly (tidOf e))
+    (obs : List Text) (fs' : FS) (w : List Text)
+    (hfirst : examineSnaps o fs cleanup skipped [p] runOnly count update sort = .ok obs fs' w)
+    (e : Entry) (he : e ∈ es) (hp : Protected skipped (tidOf e)) :
+    tidOf e ∉ obs ∧ ∃ es', fsRead fs' p = some (render es') ∧ e ∈ es' := by
+  have hk := protected_kept o registered skipped runOnly (tidOf e) hp
+  obtain ⟨hobs, es', _, hr, hcase⟩ := examineSnaps_single_ok o registered skipped runOnly fs cleanup
+    p count update sort es hf hread hreg hcls obs fs' w hfirst
+  refine ⟨?_, es', hr, ?_⟩
+  · rw [hobs]
+    simp only [List.mem_map, List.mem_filter, not_exists, not_and, and_imp]
+    intro x hx hnk hxe
+    rw [hxe, hk] at hnk; cases hnk
+  · rcases hcase with ⟨_, _, rfl⟩ | ⟨_, _, hperm⟩
+    · exact he
+    · exact hperm.mem_iff.mpr (List.mem_filter.mpr ⟨he, by simp [hk]⟩)
+
+/-- concrete file: `[TestA/x - 1]` (descendant of the skipped `TestA`), `[TestAB - 1]` (sibling),
+nothing registered, clean mode: the sibling is reported and dropped, the descendant is stored -/
+example :
+    let e1 : Entry := ⟨[91, 84, 101, 115, 116, 65, 47, 120, 32, 45, 32, 49, 93], [121]⟩
+    let e2 : Entry := ⟨[91, 84, 101, 115, 116, 65, 66, 32, 45, 32, 49, 93], [122]⟩
+    let st := exScan {} [] [[84, 101, 115, 116, 65]] [] true (scan (render [e1, e2])) .outer {}
+    st.obsolete = [[84, 101, 115, 116, 65, 66, 32, 45, 32, 49]] ∧
+    st.tests = [([84, 101, 115, 116, 65, 47, 120, 32, 45, 32, 49], [121, 10])] := by
+  decide +kernel
+
+/-! ## 5. the file-level heuristic is off without `-run` -/
+
+theorem isFileSkipped_runOnly_empty (o : Oracles) (dir f : Text) : isFileSkipped o dir f [] = some false := by
+  simp [isFileSkipped]
+
 end GoSnaps.C08
